@@ -5,7 +5,6 @@ package main
 
 import (
 	"fmt"
-	"go/token"
 	"go/types"
 )
 
@@ -118,6 +117,5 @@ func genLayout(w *world) string {
 	f.list("fields of struct nodeRef as (name, offset, size, Go type)",
 		"nodeRefLayout", "List (String × Nat × Nat × String)", w.structLayout(rst, sizes))
 	fmt.Fprintf(&f.b, "\ndef nodeRefSize : Nat := %d\n", sizes.Sizeof(ref))
-	_ = token.NoPos
 	return f.done()
 }
